@@ -53,6 +53,8 @@ def site_label(lab):
         return 'insert:' + ('whitespace' if c in _WS_LABELS else c)
     if p[0] == 'case':
         return 'case'
+    if p[0] == 'prefix':
+        return 'prefix'
     return lab
 
 
@@ -93,7 +95,11 @@ def _worker(task):
     counts = {'pairs_tried': 0, 'pairs_same_compact': 0, 'compact_error': 0}
     folded = {}
 
+    thin = G.Thinner(sc, tier)
+
     def pair(gen, lab, x, cx, y, kw):
+        if thin.skip(gen + ':' + lab.split(':')[0]):
+            return
         counts['pairs_tried'] += 1
         try:
             cy = compact(y)
